@@ -189,7 +189,11 @@ impl Shim {
                 self.z3.send(&format!("(assert {})", smtref::print_sexpr(a)));
             }
         }
-        let tries = 1 + self.rng.below(4);
+        // REFSOLVER_TRIES=n: up to n attempts (witness-quality checks want models far from z3's default)
+        let tries = match std::env::var("REFSOLVER_TRIES").ok().and_then(|s| s.parse::<u64>().ok()) {
+            Some(n) if n > 0 => n / 2 + self.rng.below(n / 2 + 1),
+            _ => 1 + self.rng.below(4),
+        };
         for _ in 0..tries {
             let (name, sort) = consts[self.rng.below(consts.len() as u64) as usize].clone();
             let v = self.random_value(&sort);
